@@ -27,6 +27,8 @@ def jobs_for(tier, rng):
                "test": rng.choice(["span", "max_diff"]), "calls": [rng.choice([3, 4, 6])],
                "mbs": mbs, "shuffle": k % 3 != 0, "seed": rng.randrange(10000),
                "twin": k % 3 == 1, "tag": f"savi{k}"}
+        if job["shuffle"] and k % 5 == 2:
+            job["shuffle_np"] = rng.choice(["np", "one"])       # shuffle_states given as numpy.True_ / as 1
         if k % 6 == 1:
             # the t-th sweep of a solver's life uses the t-th permutation of the seeded chain, however the
             # sweeps are split over solve() calls: twin solver with the same seed and ONE call
